@@ -343,7 +343,6 @@ func (h *harness) runCase(c *tcase, idx int, other []byte) caseResult {
 		}
 	}()
 	base := ""
-	baseTail := ""
 	strictAcrossBuilds := true
 	if c.codec == "jpeg" {
 		jb := h.pools["default"].ask("jpegblocks " + hlib.Hex(c.src))
@@ -380,7 +379,10 @@ func (h *harness) runCase(c *tcase, idx int, other []byte) caseResult {
 			cmd := cmds[k]
 			ans := answers[k]
 			if base == "" {
-				base, baseTail = ans, cf.tail
+				base = ans
+				if c.kind == "img" && !strings.Contains(ans, " unw=0 ") {
+					res.counts = append(res.counts, "img:some-pixels-unwritten")
+				}
 				if strings.HasPrefix(ans, "st=ok") {
 					res.counts = append(res.counts, "status:"+c.codec+":ok")
 				} else {
@@ -396,16 +398,10 @@ func (h *harness) runCase(c *tcase, idx int, other []byte) caseResult {
 				}
 				continue
 			}
+			// (pixels the decoder did not write are hashed as "unwritten" by the driver, whatever
+			// the destination held: configurations with different destination pre-fills are
+			// directly comparable, also for partial frames and rejected inputs)
 			same := ans == base
-			if !same && c.kind == "img" && cf.tail != baseTail {
-				// pixel buffers pre-filled differently are only comparable when every pixel is written
-				a, fullA := canonImg(ans)
-				b, fullB := canonImg(base)
-				if a == b && !(fullA && fullB) {
-					same = true
-					res.counts = append(res.counts, "img:partial-frame:tail-variants-not-comparable")
-				}
-			}
 			if !same && f.name != "default" && !strictAcrossBuilds {
 				a, _ := canonImg(ans)
 				b, _ := canonImg(base)
